@@ -202,6 +202,12 @@ class ArrayUnionMatcher(CombinationMatcher):
         m._limit = self._limit
         return m
 
+    def reset(self):
+        for subm in self._submatchers:
+            subm.reset()
+        self._docnum = self._min_id()
+        self._read_part()
+
     def _min_id(self):
         active = [subm for subm in self._submatchers if subm.is_active()]
         if active:
